@@ -229,8 +229,51 @@ func newSorts(emit func(string)) *Sorts {
 	return &Sorts{emit: emit, declared: map[string]bool{}, typeIDs: map[string]int{}, structs: map[string]*types.Struct{}, structT: map[string]types.Type{}}
 }
 
+// curSubst maps type parameters to type arguments while a generic body is examined for one instantiation
+// (the encoder is single-threaded while encoding).
+var curSubst map[string]types.Type
+
+func substType(t types.Type) types.Type {
+	if len(curSubst) == 0 || t == nil {
+		return t
+	}
+	switch u := types.Unalias(t).(type) {
+	case *types.TypeParam:
+		if r, ok := curSubst[u.Obj().Name()]; ok {
+			return r
+		}
+	case *types.Pointer:
+		return types.NewPointer(substType(u.Elem()))
+	case *types.Slice:
+		return types.NewSlice(substType(u.Elem()))
+	case *types.Array:
+		return types.NewArray(substType(u.Elem()), u.Len())
+	case *types.Map:
+		return types.NewMap(substType(u.Key()), substType(u.Elem()))
+	case *types.Chan:
+		return types.NewChan(u.Dir(), substType(u.Elem()))
+	case *types.Named:
+		if ta := u.TypeArgs(); ta != nil && ta.Len() > 0 {
+			args := make([]types.Type, ta.Len())
+			changed := false
+			for i := range args {
+				args[i] = substType(ta.At(i))
+				if args[i] != ta.At(i) {
+					changed = true
+				}
+			}
+			if changed {
+				if inst, err := types.Instantiate(nil, u.Origin(), args, false); err == nil {
+					return inst
+				}
+			}
+		}
+	}
+	return t
+}
+
 func typeKey(t types.Type) string {
-	return types.TypeString(t, func(p *types.Package) string { return p.Name() })
+	return types.TypeString(substType(t), func(p *types.Package) string { return p.Name() })
 }
 
 func isTimeTime(t types.Type) bool {
@@ -240,6 +283,7 @@ func isTimeTime(t types.Type) bool {
 
 // structOf returns the struct underlying t (not through pointers), or nil.
 func structOf(t types.Type) *types.Struct {
+	t = substType(t)
 	if isTimeTime(t) {
 		return nil
 	}
@@ -257,7 +301,7 @@ func (ss *Sorts) structSortName(t types.Type) string {
 
 // sortOf maps a Go type to an SMT sort, declaring datatypes on demand.
 func (ss *Sorts) sortOf(t types.Type) string {
-	t = types.Unalias(t)
+	t = types.Unalias(substType(t))
 	if isTimeTime(t) {
 		return sInt
 	}
@@ -325,6 +369,7 @@ func (ss *Sorts) sortOf(t types.Type) string {
 
 // field accessor for struct sort
 func (ss *Sorts) fieldSel(t types.Type, i int, v Term) Term {
+	t = substType(t)
 	st := structOf(t)
 	srt := ss.sortOf(t)
 	name := strings.Trim(srt, "|")
@@ -354,7 +399,7 @@ func (ss *Sorts) fieldUpd(t types.Type, i int, v Term, nv Term) Term {
 }
 
 func (ss *Sorts) zero(t types.Type) Term {
-	t = types.Unalias(t)
+	t = types.Unalias(substType(t))
 	if isTimeTime(t) {
 		return tInt(0)
 	}
